@@ -78,7 +78,8 @@ def parseMsg : List String → Option Msg
     if side != "s" && side != "c" then none
     if id != "id" && id != "noid" then none
     pure { side := side, mname := name, muts := words muts,
-           req := { method := methodOfName name, hasId := id == "id", params := shape, «meta» := mt, tag := tag, iver := iver, lvl := lvl } }
+           req := { method := methodOfName name, hasId := id == "id", params := shape, «meta» := mt, tag := tag, iver := iver, lvl := lvl,
+                    cancelIdBad := name == "notifications/cancelled" && (words muts).contains "requestId:wrong" } }
   | _ => none
 
 /-! ## rendering the model's prediction -/
